@@ -61,7 +61,12 @@ class C01(Prop):
         if extra and rng.random() < 0.2:
             names = names + extra[:1]
         data = lang.gen_trace(rng, names, n)
-        return {'formula': f, 'data': data, 'kind': rng.choice(['dt', 'dt', 'dt_off'])}
+        case = {'formula': f, 'data': data, 'kind': rng.choice(['dt', 'dt', 'dt_off'])}
+        if rng.random() < 0.25:
+            # the same specification object evaluated again on other traces (other values, other lengths)
+            case['more'] = [lang.gen_trace(rng, names, rng.choice([1, 2, 3, n, n + 3, 9]))
+                            for _ in range(rng.randint(1, 2))]
+        return case
 
     def judge(self, case):
         v = Verdict()
@@ -83,7 +88,8 @@ class C01(Prop):
         v.info['len:%s' % ('1' if n == 1 else '2-5' if n <= 5 else '6+')] = 1
         ds = drive.dt_dataset(data, n)
         try:
-            res = drive.Mon(kind, {'text': text, 'vars': names}).evaluate(ds)
+            mon = drive.Mon(kind, {'text': text, 'vars': names})
+            res = mon.evaluate(ds)
         except Exception as e:
             v.bad('raises:' + type(e).__name__, '%s on n=%d: evaluate raised %s: %s' % (text, n, type(e).__name__, e),
                   self.classify(case, 'raises', type(e).__name__))
@@ -100,6 +106,23 @@ class C01(Prop):
             v.bad('value', '%s data=%s: at sample %d observed %r expected %r (obs=%s exp=%s)' % (
                 text, data, i, obs[i], exp[i], fmt(obs), fmt(exp)), self.classify(case, 'value', ''))
             return v
+        # the same object on further traces: every evaluation must be exact, not only the first
+        for k, d2 in enumerate(case.get('more') or []):
+            n2 = len(d2[names[0]])
+            try:
+                exp2 = ref.evaluate(f, d2, n2)
+                res2 = mon.evaluate(drive.dt_dataset(d2, n2))
+            except ref.Undefined:
+                break
+            except Exception as e:
+                v.bad('reuse-raises:' + type(e).__name__, '%s: evaluate() #%d on the same object (trace %s) raised %s: %s'
+                      % (text, k + 2, d2, type(e).__name__, e))
+                return v
+            v.info['reused-object-evaluations'] = v.info.get('reused-object-evaluations', 0) + 1
+            if len(res2) != n2 or first_diff(drive.values(res2), exp2, rel) is not None:
+                v.bad('reuse-value', '%s: evaluate() #%d on the same specification object, trace %s: returned %s, '
+                      'expected %s (first trace was %s)' % (text, k + 2, d2, fmt(drive.values(res2)), fmt(exp2), data))
+                return v
         # time-stamp independence, on a fresh object
         ts = alt_times(n)
         try:
